@@ -118,6 +118,8 @@ def rerun(names, tier):
         if not os.path.exists(mp):
             continue
         meta = json.load(open(mp))
+        if os.environ.get("SEEDED_SKIP_UPTO") and name <= os.environ["SEEDED_SKIP_UPTO"]:
+            continue
         if os.environ.get("SEEDED_SKIP_THOROUGH") and meta.get("tier") == "thorough":
             print(name, "skipped (thorough tier only: verified on its own)"); sys.stdout.flush(); continue
         d = scratch(name)
